@@ -1,8 +1,8 @@
 package props
 
 import (
-	"strings"
 	"golang.org/x/tools/go/ssa"
+	"strings"
 
 	"bbcheck/internal/an"
 )
@@ -153,10 +153,8 @@ func channelRules(c *Ctx) {
 			d := P.Lin(st.Addr.(*ssa.IndexAddr).Index).Minus(pend)
 			g := P.PathCond(q.fn, nil, in, keepForms(d))
 			okb := len(g) > 0 && isNilConst(st.Val)
-			for _, cj := range g {
-				if s, ok := cj[lit(d, an.SAny).Form]; !ok || s&^lit(d, an.SNeg).Set != 0 {
-					okb = false
-				}
+			if okb {
+				okb, _ = an.ImpliesDNF(g, an.DNF{conj(lit(d, an.SNeg))})
 			}
 			q.add("COND", "only delivered entries are nil-ed", okb, "index < len - rollback and value nil", in)
 		}
